@@ -4,6 +4,7 @@
 #include "c06.hpp"
 #include "c10.hpp"
 #include "c03.hpp"
+#include "c13.hpp"
 
 namespace sbepp
 {
@@ -36,6 +37,7 @@ sim::Plan gen_plan(std::uint64_t seed, const std::string& prop, const std::strin
     if(prop == "C04") return wire::gen_c04(seed, tier);
     if(prop == "C19") return wire::gen_c19(seed, tier);
     if(prop == "C03") return wire::gen_c03(seed, tier);
+    if(prop == "C13") return wire::gen_c13_wire(seed, tier);
     return sim::Plan{};
 }
 
@@ -49,6 +51,7 @@ sim::Result exec_plan(const sim::Plan& plan)
     if(prop == "C04") return wire::exec_c04(plan);
     if(prop == "C19") return wire::exec_c19(plan);
     if(prop == "C03") return wire::exec_c03(plan);
+    if(prop == "C13") return wire::exec_c13_wire(plan);
     sim::Result r;
     r.signature = "HARNESS:unknown-property";
     return r;
